@@ -194,6 +194,19 @@ Fixpoint cmt_apply (vals upd : list kv) (seen : list key) : option (list kv) :=
       else cmt_apply (kv_set vals k p) r (k :: seen)
   end.
 
+(* CometBFT additionally refuses a non-empty change list that leaves no validator at all (types/validator_set.go,
+   updateWithChangeSet: "applying the validator changes would result in empty set").  That rule is outside the statement
+   of C06 (it is a liveness matter, C11); it is transcribed here so that the transcription [cmt_apply] can be compared
+   with the real CometBFT code on every observed block. *)
+Definition cmt_code (prev upd : list kv) : Z :=
+  match cmt_apply prev upd [] with
+  | None => 2
+  | Some got => match upd, got with
+                | _ :: _, [] => 1
+                | _, _ => 0
+                end
+  end.
+
 (* ---- the specification: eligible top set ---- *)
 Definition eligible (cs : list cand) : list cand := filter (fun c => 1 <=? c_pow c) cs.
 Definition top_k (maxv : nat) (cs : list cand) : list cand := firstn maxv (sort_by_power (eligible cs)).
@@ -225,7 +238,10 @@ Fixpoint strictly_sorted (l : list kv) : bool :=
 Record step := mkStep {
   s_epoch_ended : bool;  (* the dogfood epoch number advanced in this block's BeginBlock (read from x/epochs) *)
   s_marker : bool;       (* the marker as EndBlock finds it *) s_max : Z; s_prev : list kv; s_prev_total : Z; s_opers : list oper; s_norev : list key;
-  s_panicked : bool; s_upd : list kv; s_after : list kv; s_total_after : Z; s_stored_upd : list kv;
+  s_panicked : bool;
+  s_cmt : Z;   (* what the REAL CometBFT ValidatorSet.UpdateWithChangeSet(prev, updates) answered: 0 accepted, 1 refused because the
+                  set would become empty, 2 refused for another reason (duplicate, unknown removal, negative, ...) *)
+  s_upd : list kv; s_after : list kv; s_total_after : Z; s_stored_upd : list kv;
   s_marker_after : bool }.
 Record case := mkCase { c_steps : list step }.
 
@@ -280,6 +296,7 @@ Definition eligible_opers (os : list oper) : list cand :=
 
 Definition monitor_step (s : step) : bool :=
   if s_panicked s then true (* nothing was handed to consensus; a halted chain is C11's subject *)
+  else if negb (s_cmt s =? cmt_code (s_prev s) (s_upd s)) then false   (* real CometBFT and its transcription disagree *)
   else if negb (s_epoch_ended s) then
     (* every block that does not close a dogfood epoch: empty list, nothing changes *)
     list_eqb kv_eqb (s_upd s) [] && list_eqb kv_eqb (s_stored_upd s) []
